@@ -35,7 +35,8 @@ func (l Logistic) ExKurtosis() float64 {
 // LogProb computes the natural logarithm of the value of the probability
 // density function at x.
 func (l Logistic) LogProb(x float64) float64 {
-	return x - 2*math.Log(math.Exp(x)+1)
+	z := (x - l.Mu) / l.S
+	return z - 2*math.Log(math.Exp(z)+1) - math.Log(l.S)
 }
 
 // Mean returns the mean of the probability distribution.
